@@ -467,10 +467,10 @@ func (in *Interp) fireNextTimer() bool {
 	later := tb.BvCmp(OpSLt, in.clock(), best.deadline)
 	in.now = tb.Ite(later, best.deadline, in.clock())
 	in.fireTimer(best)
-	// timers that are due at the very same instant fire together, so that the goroutines they wake are runnable at the
+	// (verifSimultaneousTimers(true)) timers that are due at the very same instant fire together, so that the goroutines they wake are runnable at the
 	// same time and their interleavings are explored (only when the deadlines are provably equal)
 	for _, t := range act {
-		if t == best || !t.active {
+		if !in.simulTimers || t == best || !t.active {
 			continue
 		}
 		if eq := tb.Eq(t.deadline, best.deadline); eq.IsConst() && eq.IsTrue() {
